@@ -207,7 +207,8 @@ def infer_kind(arg, kinds):
         base = m.group(1).lower()
         if m.group(2):
             return "numeric"   # field of a record (all fields are byte/integer)
-        return kinds.get(base)
+        # a name the procedure declares nowhere is BASIC09's implicit variable: REAL, or STRING with a `$`
+        return kinds.get(base) or kinds.get(base + "$" if a.endswith("$") else base) or ("string" if a.endswith("$") else "numeric")
     if re.match(r"(?i)^(chr|mid|left|right|str|trim)\$\(", a):
         return "string"
     if re.match(r"^[-+]?\d", a) or re.match(r"^\$[0-9A-Fa-f]+$", a):
